@@ -56,9 +56,22 @@ def run(chk, sources, label="EvyVM", max_steps=1500):
         else:
             chk.mismatch("vmtrace", "VM trace is not a run of EvyVM: " + vd + " :: " + pr["src"].replace("\n", " / ")[:300],
                          {"program": pr["src"], "verdict": vd, "vm_result": pr["result"]})
+    # vacuity guard: which instructions of the instruction set did the validated runs execute
+    ALL = ["OpConstant", "OpGetGlobal", "OpSetGlobal", "OpDrop", "OpGetLocal", "OpSetLocal", "OpAdd", "OpSubtract", "OpMultiply", "OpDivide", "OpModulo",
+           "OpTrue", "OpFalse", "OpNot", "OpMinus", "OpEqual", "OpNotEqual", "OpNumLessThan", "OpNumLessThanEqual", "OpNumGreaterThan",
+           "OpNumGreaterThanEqual", "OpStringLessThan", "OpStringLessThanEqual", "OpStringGreaterThan", "OpStringGreaterThanEqual",
+           "OpStringConcatenate", "OpArray", "OpArrayConcatenate", "OpArrayRepeat", "OpMap", "OpIndex", "OpSetIndex", "OpSlice", "OpNone", "OpJump",
+           "OpJumpOnFalse", "OpStepRange", "OpIterRange"]
+    opcount = dict.fromkeys(ALL, 0)
+    for pr in byid.values():
+        at = {i["ip"]: i["op"] for i in pr["code"]}
+        for st in pr["trace"][: verdicts[pr["id"]]["steps"] if pr["id"] in verdicts else 0]:
+            opcount[at.get(st["ip"], "?")] = opcount.get(at.get(st["ip"], "?"), 0) + 1
     chk.traces += nok + nuns
     chk.evaluations += len(byid)
     chk.extra["vm_traces"] = {"programs_compiled": len(byid), "accepted": nok, "accepted_up_to_an_unspecified_point": nuns,
-                              "steps_validated": nsteps, "programs_offered": len(seen)}
+                              "steps_validated": nsteps, "programs_offered": len(seen),
+                              "instructions_never_executed": sorted(k for k, v in opcount.items() if v == 0),
+                              "steps_by_instruction": {k: v for k, v in sorted(opcount.items()) if v}}
     shutil.rmtree(d, ignore_errors=True)
     return verdicts
